@@ -46,7 +46,7 @@
         std::mem::forget(r);
     }
 
-//# ob name=loader_confinement_native role=native_bounded fn=loader::{safe_join,path_loader}+State::get_template kind=bounded bound="all names of 1..=4 segments over the segment alphabet {'', '.', '..', '...', 'a', '.a', 'a.', 'a..b', 'a\\\\b', '..\\\\a', NUL, '%2e%2e', U+2024 dots, 'sub', 'canary.txt', '<absolute base>', '<absolute outside>'} joined by '/', with optional leading/trailing/double slashes (about 2*10^5 names), against a real directory tree with canary files outside the base; direct loader calls and include/extends/import with computed names" stmt="the path loader only ever returns the content of files located beneath its base directory: for every name it either returns such a file's content or reports the template as missing/unreadable; it never returns the content of a canary file placed outside the base"
+//# ob name=loader_confinement_native role=native_bounded fn=loader::{safe_join,path_loader}+State::get_template kind=bounded bound="8 unusual loader bases (empty path, `.`, relative with trailing separators / dots) x 9 absolute or climbing names to a canary outside, from the host and computed in templates; all names of 1..=4 segments over the segment alphabet {'', '.', '..', '...', 'a', '.a', 'a.', 'a..b', 'a\\\\b', '..\\\\a', NUL, '%2e%2e', U+2024 dots, 'sub', 'canary.txt', '<absolute base>', '<absolute outside>'} joined by '/', with optional leading/trailing/double slashes (about 2*10^5 names), against a real directory tree with canary files outside the base; direct loader calls and include/extends/import with computed names" stmt="the path loader only ever returns the content of files located beneath its base directory: for every name it either returns such a file's content or reports the template as missing/unreadable; it never returns the content of a canary file placed outside the base"
     fn loader_confinement_native() {
         use std::fs;
         let root = std::env::temp_dir().join(format!("verif-c17-{}", std::process::id()));
@@ -126,6 +126,22 @@
         let rel_loader = path_loader("does/not/exist");
         for name in ["Cargo.toml", "../../../Cargo.toml", "src/lib.rs"] {
             match rel_loader(name) { Ok(None) | Err(_) => {}, Ok(Some(c)) => panic!("loader with a missing relative base served {name:?}: {:?}", &c[..c.len().min(60)]) }
+        }
+        // unusual bases: the empty path (the working directory), `.`, relative bases with trailing separators / dots - an
+        // absolute name, or one that climbs out, never reaches the canary outside (which lies outside the working
+        // directory as well), whether it comes from the host or is computed in a template
+        for base in ["", ".", "./", "src", "src/", "./src/.", "src//", "./"] {
+            let l = path_loader(base);
+            let mut env2 = crate::Environment::new();
+            env2.set_loader(path_loader(base));
+            for name in [out_s.clone(), format!("/{out_s}"), format!("//{out_s}"), out_s.trim_start_matches('/').to_string(), format!("{}/../canary.txt", base_s), format!("./{out_s}"),
+                         format!("x/../{out_s}"), format!("{}{}", "../".repeat(12), out_s.trim_start_matches('/')), format!("src/../{}{}", "../".repeat(12), out_s.trim_start_matches('/'))] {
+                match l(&name) { Ok(None) | Err(_) => {}, Ok(Some(c)) => assert!(!c.contains("CANARY"), "path_loader({base:?}) returned the canary outside for the name {name:?}") }
+                let r = env2.render_str("{% include n ignore missing %}|{% include [n, n] ignore missing %}", crate::context! { n => name.clone() });
+                if let Ok(o) = r { assert!(!o.contains("CANARY"), "path_loader({base:?}): include of {name:?} rendered the canary: {o:?}"); }
+                let r = env2.render_str("{% include '/' ~ parts|join('/') ignore missing %}", crate::context! { parts => name.split('/').filter(|p| !p.is_empty()).map(|p| p.to_string()).collect::<Vec<String>>() });
+                if let Ok(o) = r { assert!(!o.contains("CANARY"), "path_loader({base:?}): include of the joined parts of {name:?} rendered the canary: {o:?}"); }
+            }
         }
         let _ = fs::remove_dir_all(&root);
     }
